@@ -67,6 +67,12 @@ var behaviours = []behaviour{
 	{Name: "index-out-of-range", Fails: true, NonStringPanic: true, Do: func(t *f1testing.T) { s := []int{}; i := len(s) + 3; _ = s[i] }},
 	{Name: "nil-dereference", Fails: true, NonStringPanic: true, Do: func(t *f1testing.T) { var p *customPanic; _ = p.Code }},
 	{Name: "divide-by-zero", Fails: true, NonStringPanic: true, Do: func(t *f1testing.T) { z := len(t.Scenario) - len(t.Scenario); _ = 1 / z }},
+	{Name: "panic(slice)", Fails: true, NonStringPanic: true, Do: func(t *f1testing.T) { panic([]string{"a", "b"}) }},
+	{Name: "panic(map)", Fails: true, NonStringPanic: true, Do: func(t *f1testing.T) { panic(map[string]int{"a": 1}) }},
+	{Name: "pass-with-panicking-cleanup", Do: func(t *f1testing.T) { t.Cleanup(func() { panic("cleanup panic") }); t.Cleanup(func() {}) }},
+	{Name: "pass-with-FailNow-cleanup", Do: func(t *f1testing.T) { t.Cleanup(func() { t.FailNow() }) }},
+	{Name: "pass-with-Fail-cleanup", Do: func(t *f1testing.T) { t.Cleanup(func() {}); t.Cleanup(func() { t.Fail() }) }},
+	{Name: "Fail-with-panicking-cleanup", Fails: true, Do: func(t *f1testing.T) { t.Cleanup(func() { panic(errSentinel) }); t.Fail() }},
 	{Name: "cleanup-then-FailNow", Fails: true, Do: func(t *f1testing.T) { t.Cleanup(func() {}); t.FailNow() }},
 	{Name: "pass-with-cleanup", Do: func(t *f1testing.T) { t.Cleanup(func() {}) }},
 }
